@@ -45,6 +45,7 @@ def oracle_atoms(atoms):
     past = []                 # states at command boundaries, oldest first
     last_landing = None       # index into `past` of the previous undo landing in the current undo chain
     prev_effective_undo = None
+    pending = []              # pre-states of the effective undos not yet redone and not yet discarded by a snapshot
     for i, a in enumerate(atoms):
         pre, post, kind = a["pre"], a["post"], a["kind"]
         past.append(pre)
@@ -64,15 +65,23 @@ def oracle_atoms(atoms):
                     return ("undo landed on a boundary that is not older than the previous undo landing", "undo-order", i)
                 last_landing = idx
                 prev_effective_undo = i
+                pending.append(pre)
                 continue
         elif kind == "redo":
             if prev_effective_undo == i - 1:
                 if post != atoms[i - 1]["pre"]:
                     return ("redo immediately after undo did not restore text and cursor exactly", "redo-not-inverse", i)
+            elif pending and post != pending[-1]:
+                # redo exactly reverses undo: the k-th redo in a row answers the k-th last undo
+                return ("redo did not restore the state its matching undo had left (expected %r)" % (pending[-1],), "redo-not-inverse-nested", i)
             elif post != pre and post not in past:
                 return ("redo produced a state the buffer never had", "redo-invents", i)
+            if pending:
+                pending.pop()
             last_landing = None
         else:
+            if a.get("saved"):
+                pending = []      # a snapshot discards the redo history
             if a.get("edit") and post[0] != pre[0] and a["redo_len_after"] != 0:
                 return ("an edit left the redo history in place", "edit-keeps-redo", i)
             if post[0] != pre[0]:
@@ -155,7 +164,7 @@ def impl_buffer_case(case):
         post = (b.text, b.cursor_position)
         out.append([bad, S(b.text), b.cursor_position, stack_sx(b._undo_stack), stack_sx(b._redo_stack)])
         atoms.append({"kind": kind, "pre": pre, "post": post, "redo_len_after": len(b._redo_stack),
-                      "edit": op[0] == 1 and bool(op[1])})
+                      "edit": op[0] == 1 and bool(op[1]), "saved": op[0] == 1 and bool(op[1])})
     # repeated undo (not part of the compared trace)
     final = None
     for _ in range(len(b._undo_stack) + 1):
@@ -475,15 +484,15 @@ def key_case_to_model(res):
         out.append([1 if e["saves"] else 0, [0, S(e["post"][0]), e["post"][1], stack_sx(e["ustack"]), stack_sx(e["rstack"])]])
         if e["undos"]:
             if e["saves"]:
-                atoms.append({"kind": "cmd", "pre": e["pre"], "post": e["pre"], "redo_len_after": 0, "edit": False})
+                atoms.append({"kind": "cmd", "pre": e["pre"], "post": e["pre"], "redo_len_after": 0, "edit": False, "saved": True})
             for (p, q) in e["undos"]:
                 atoms.append({"kind": "undo", "pre": p, "post": q, "redo_len_after": -1})
             last = e["undos"][-1][1]
             if last != e["post"]:
-                atoms.append({"kind": "cmd", "pre": last, "post": e["post"], "redo_len_after": len(e["rstack"]), "edit": False})
+                atoms.append({"kind": "cmd", "pre": last, "post": e["post"], "redo_len_after": len(e["rstack"]), "edit": False, "saved": False})
         else:
             atoms.append({"kind": "cmd", "pre": e["pre"], "post": e["post"], "redo_len_after": len(e["rstack"]),
-                          "edit": e["row"][1] == 0 and e["row"][0] != 0})
+                          "edit": e["row"][1] == 0 and e["row"][0] != 0, "saved": bool(e["saves"])})
     return [1, S(init[0]), init[1], evs], out, atoms
 
 
@@ -519,6 +528,8 @@ def key_specs(chk):
         ("emacs", "", 0, ["a", "sp", "b", "c-w", "undo", "!redo", "a", "!redo"]),
         ("emacs", "abc", 0, ["del", "del", "undo", "!redo", "undo"]),
         ("emacs", "x", 1, ["M-3", "a", "undo2", "undo2"]),
+        ("emacs", "", 0, ["a", "sp", "b", "sp", "c-w", "undo", "undo", "undo", "!redo", "!redo", "!redo", "undo", "!redo"]),
+        ("vi", "one two three", 0, ["esc", "x", "w", "x", "w", "x", "u", "u", "u", "!redo", "!redo", "!redo", "u", "u"]),
         # two bindings sharing one handler function (delete-char): is_repeat is per binding
         ("emacs", "abcdefgh", 0, ["del", "c-del", "del", "c-del", "c-del", "undo", "undo"]),
         ("vi", "abcdefgh", 0, ["del", "c-del", "c-del", "del", "esc", "u", "u"]),
@@ -578,7 +589,7 @@ def main(tier):
     if tq[0] != len(rows0):
         chk.violation("tie", "model table has %r rows, harness sees %d" % (tq[0], len(rows0)), {"kind": "table-size"}, {}, no_input=True)
     if tq[5]:
-        chk.note("undo bindings that snapshot before undoing (each such undo empties the redo stack first; not demanded otherwise by the property text): "
+        chk.note("undo bindings that snapshot before undoing (each such undo empties the redo stack first): "
                  + ", ".join("%d %s -> %s" % (i, rows0[i][1], rows0[i][2]) for i in tq[5]))
     if not tq[6]:
         chk.note("no default binding calls Buffer.redo (Vi c-r is reverse search); redo is exercised by direct Buffer.redo() calls")
